@@ -64,4 +64,20 @@ META = {
          'children" are checked on the implementation dumps on every run but not yet proved for the model; pickle of callables '
          '(save/load) is runtime behaviour, sampled. Known finding: become onto a descendant leaves a cycle (KNOWN_FINDINGS.txt); the '
          'deprecated explicit add_edge producing duplicate positional indices or cycles is outside the property statement and skipped.'),
+ 'C08': dict(
+    text='Theorems (Properties/C08.v, closed under the global context) over the model of augmenter.add_pdf_nodes and '
+         'ModelPrior._evaluate_pdf on the graph calculus (coq/Graph/Prior.v): for every model and every duplicate-free list of requested '
+         'parameters, augmentation adds exactly one density node per requested parameter whose positional arguments are the parameter '
+         'followed by its own positional parents in order, a node created with positional parents receives exactly those in that order '
+         '(column i feeds factor i), user nodes and their parents are untouched (non-requested parameters contribute nothing); '
+         'functools.reduce(mul) is the product of the factors; the joint is zero iff some factor is zero, positive if all are, and '
+         'independent of the order of the request; the log joint is -inf iff some term is; the central-difference stencil is exact on '
+         'quadratics for every non-zero step. Correspondence on every run: the real add_pdf_nodes result (introspected) and the symbolic '
+         'value returned by ModelPrior._evaluate_pdf/logpdf on random hierarchical models with recording distributions equal the model '
+         'and the product/sum specification; numeric: pdf/logpdf/rvs/gradient_logpdf on scipy priors vs scipy evaluated directly at '
+         'points inside/outside/on the boundary of the support, scalar/vector/matrix shapes, zero and -inf patterns, stencil identity.',
+    note=COMMON_NOTE + 'Partial: the composition of the structure theorem with the executor theorem of C03 (value of the joint node = '
+         'reduce of the density nodes values) is validated by the correspondence check, not proved end to end; "gradient agrees with '
+         'the derivative" beyond the stencil identity and exactness on quadratics is numerical analysis (sampled); scipy densities and '
+         'samplers are oracles ("draws have positive density" is sampled).'),
 }
